@@ -4,6 +4,8 @@ import random
 
 import vcommon as v
 import crashengine as ce
+import concengine as cc
+from checks.c07 import collect
 
 PROP = "C19"
 INV = ["CrashOpens", "CrashWindow", "RealOpens", "RealWindow", "Partition", "AtAckJournalClear"]
@@ -29,6 +31,17 @@ def run(tier, seed):
                 args += ["--steps", str(rng.choice([60, 120]))]
             jobs.append(("s%d_%s" % (cpus // 2, variant), args))
     viol, st, traces = ce.run_and_validate(PROP, fxv, rd, jobs, INV)
+    # ---- retirement while readers come and go: once the last reader has left, one more flush must
+    #      return and leave every superseded generation retired and released (RetireSettled)
+    fam = cc.held_reader_family()
+    if tier == "quick":
+        rng.shuffle(fam)
+        fam = [x for x in fam if "_n_get_get_" in x[0]] + [x for x in fam if "_n_get_get_" not in x[0]][:10]
+    cst = {"traces": 0, "states": 0, "transitions": 0, "schedules": 0, "stalls": 0, "events": 0}
+    res = cc.run_dfs(fxv, rd, fam, "held", chunk=2, maxsched=100 if tier == "quick" else 600, preempt=2, par=12)
+    collect(PROP, res, rd, ["RetireSettled"], viol, cst)
+    st["states"] += cst["states"]
+    st["transitions"] += cst["transitions"]
     # evidence: how many shards/workers each run really had and touched
     shard_info = []
     for t in traces:
@@ -46,6 +59,11 @@ def run(tier, seed):
                 "generation must have been retired and its blocks released (Partition); the image is also "
                 "reopened with the real recovery code" % SETTLE_MS,
         "samples": shard_info[:6],
+        "held_reader_programs": len(fam), "held_reader_schedules": cst["schedules"], "held_reader_stalls": cst["stalls"],
+        "held_reader_rule": "two readers (get / range / CAS) of one offloaded generation against delete / update / TTL "
+                            "update + flush, every interleaving with <= 2 preemptions at the points between a "
+                            "reader's index lookup and its device read; after the last thread returned one more "
+                            "flush() must return (watchdog) and free + live blocks = data area (RetireSettled)",
         "settle_ms": SETTLE_MS, "shard_counts": [c // 2 for c in shard_cpus],
     }
     return {"level": "model_checking", "coverage": cov, "violations": viol,
